@@ -3,6 +3,7 @@ package rules
 import (
 	"fmt"
 	"go/types"
+	"os"
 	"strings"
 
 	"golang.org/x/tools/go/ssa"
@@ -59,7 +60,7 @@ func propsStageTable(c *core.Ctx, fn *ssa.Function, maxProcs int) (rs rows, runs
 			}
 			t.field = func(ip *absint.Interp, obj *absint.Tok, name string, typ types.Type) absint.Value {
 				if sl, ok := typ.Underlying().(*types.Slice); ok && types.IsInterface(sl.Elem()) && obj == self {
-					return procs
+					return dispatchList(c, name, procs)
 				}
 				if b, ok := typ.Underlying().(*types.Basic); ok && b.Kind() == types.Bool && obj == self {
 					return absint.Bool(true)
@@ -181,11 +182,14 @@ func propsStageTable(c *core.Ctx, fn *ssa.Function, maxProcs int) (rs rows, runs
 
 func propsStageRules(c *core.Ctx, r *core.Report, rule string) {
 	ro := c.Roles()
-	subs := lowestReaching(c, "container/factory", func(com *ssa.CallCommon) bool { return core.IsInvoke(com, ro.IAProps) })
-	if !r.Exactly(rule, "property stages (smallest function of container/factory invoking PostProcessProperties)", len(subs), 1) {
-		return
+	fn := propsStageEntry(c)
+	if fn == nil {
+		subs := lowestReaching(c, "container/factory", func(com *ssa.CallCommon) bool { return core.IsInvoke(com, ro.IAProps) })
+		if !r.Exactly(rule, "property stages (smallest function of container/factory invoking PostProcessProperties)", len(subs), 1) {
+			return
+		}
+		fn = subs[0]
 	}
-	fn := subs[0]
 	cons := "props-stage-table@" + core.FnName(fn)
 	rs, n, und := propsStageTable(c, fn, 2)
 	r.Count("props_stage_table_runs", n)
@@ -195,6 +199,50 @@ func propsStageRules(c *core.Ctx, r *core.Report, rule string) {
 	}
 	smallModelCheck(c, r, rule, cons, fn, 2)
 	rs.report(c, r, fn, func(string) string { return rule }, cons, propsStageRows)
+}
+
+// propsStageEntry: the function through which the populator runs the property stage - the one callee of the populator
+// (the smallest function that both dispatches PostProcessProperties and injects) that reaches the dispatch. Whatever
+// visitor, per-processor helper or closure the stage is made of lies below it.
+func propsStageEntry(c *core.Ctx) *ssa.Function {
+	ro := c.Roles()
+	isProps := func(com *ssa.CallCommon) bool { return core.IsInvoke(com, ro.IAProps) }
+	pops := lowestReaching(c, "container/factory", isProps, func(com *ssa.CallCommon) bool { return core.IsCallTo(com, ro.PropertyInject) })
+	if os.Getenv("IOCVET_DEBUG") != "" {
+		fmt.Fprintln(os.Stderr, "propsStageEntry pops", pops)
+	}
+	if len(pops) != 1 {
+		return nil
+	}
+	accessor := map[*ssa.Function]bool{}
+	for _, a := range ro.CacheAccessors() {
+		accessor[a] = true
+	}
+	var out []*ssa.Function
+	for _, g := range core.WithAnon(pops[0]) {
+		for _, ci := range core.Calls(g) {
+			cal := c.ResolvedCallee(ci.Common())
+			if cal == nil || cal.Blocks == nil || !c.InScope(cal) || core.TopLevel(cal) == pops[0] || accessor[cal] {
+				continue // (dependencies are created through the cache accessor: that is another component's stage)
+			}
+			if reachesCall(cal, isProps, map[*ssa.Function]bool{}) {
+				dup := false
+				for _, o := range out {
+					dup = dup || o == cal
+				}
+				if !dup {
+					out = append(out, cal)
+				}
+			}
+		}
+	}
+	if os.Getenv("IOCVET_DEBUG") != "" {
+		fmt.Fprintln(os.Stderr, "propsStageEntry out", out)
+	}
+	if len(out) != 1 {
+		return nil
+	}
+	return out[0]
 }
 
 // validatorConfigRules: every validator the validation stage uses is built by validator.New with the
